@@ -436,6 +436,7 @@ impl Check for C19Check {
             stats.probe("trg_counter_wrapped_ge_2");
         }
         let fault_kind = scn.file_fault.as_ref().map(|f| f.kind()).unwrap_or("none");
+        let mut bad_name_is_link_to: Option<(usize, String)> = None;
         // file-level faults
         let mut names: Vec<String> = (0..built.files.len()).map(|k| format!("run_f{k}.mid{}", if scn.files[k].lz4 { ".lz4" } else { "" })).collect();
         match &scn.file_fault {
@@ -466,6 +467,11 @@ impl Check for C19Check {
             Some(FileFault::UnknownExtension { file, ext }) if *file < built.files.len() => {
                 names[*file] = if ext.is_empty() { format!("run_f{file}") } else { format!("run_f{file}.{ext}") };
                 stats.fault("unknown_extension");
+                // in half of these cases the badly named argument is a symbolic link to a properly
+                // named file (the name given on the command line decides, not where it leads)
+                if (scn.t0 >> 3) % 2 == 0 {
+                    bad_name_is_link_to = Some((*file, format!("real_f{file}.mid{}", if scn.files[*file].lz4 { ".lz4" } else { "" })));
+                }
             }
             _ => {}
         }
@@ -537,6 +543,16 @@ impl Check for C19Check {
         let scratch = Scratch::new("c19");
         let mut paths = Vec::new();
         for (k, f) in built.files.iter().enumerate() {
+            if let Some((bk, real)) = &bad_name_is_link_to {
+                if *bk == k {
+                    write_file(&scratch.dir, real, f, scn.files[k].lz4, None);
+                    let _ = std::os::unix::fs::symlink(scratch.dir.join(real), scratch.dir.join(&names[k]));
+                    paths.push(scratch.dir.join(&names[k]));
+                    stats.probe("unknown_extension_argument_is_a_link_to_a_properly_named_file");
+                    log.bytes(&f.encode());
+                    continue;
+                }
+            }
             paths.push(write_file(&scratch.dir, &names[k], f, scn.files[k].lz4 && names[k].ends_with(".lz4"), None));
             log.bytes(&f.encode());
             if scn.files[k].lz4 {
